@@ -165,7 +165,9 @@ def run_case(ctx: Ctx, case: Dict[str, Any]) -> None:  # noqa: C901
                     s0, sm), case, w)
         except ValueError:
             ctx.count("machine-file:reader-refused(ValueError)")
-            if X.feasible([{"c": t["c"], "k": t["k"] - 1e-3 * (1 + abs(t["k"]))} for t in s0["a"] + s0["g"]]) == "sat":
+            # judged only when the contract has a behaviour (with margin) inside the box of the numerical reading
+            if X.check(X.box(X.names_of(s0)), X.conj([{"c": t["c"], "k": t["k"] - 1e-3 * (1 + abs(t["k"]))}
+                                                     for t in s0["a"] + s0["g"]]))[0] == "sat":
                 ctx.violation("machine-file-refused-satisfiable", "file reader refused the machine file of the "
                               "satisfiable contract %s" % s0, case)
         except Exception as e:  # noqa: BLE001
